@@ -71,7 +71,7 @@ func VerifHarness_C16_connect_handler() {
 // ConnectionBind handler: right id and owner => success response, the peer connection is handed over
 // exactly once (two copy loops), afterwards both ends are closed and the id is gone; otherwise 400 and nothing.
 //
-//verif:props=C16,C03,C19 replay=model bounds="one pending peer connection; CONNECTION-ID arbitrary (2^32); user = owner or another; arbitrary credential verdicts; request arrives on a stream (STUNConn) or datagram socket"
+//verif:props=C16,C03,C19,C04 replay=model bounds="one pending peer connection; CONNECTION-ID arbitrary (2^32); user = owner or another; arbitrary credential verdicts; request arrives on a stream (STUNConn) or datagram socket"
 func VerifHarness_C16_connection_bind_handler() {
 	s := vNewSrv(false, false)
 	c1 := allocation.VUDPAddr4()
@@ -110,8 +110,10 @@ func VerifHarness_C16_connection_bind_handler() {
 	vAssertIf(!entitled, vAnd(a.VHasTCPConn(id0), peerConn.Closed == 0), "C03.connection_bind_without_owner_credentials_changes_nothing")
 	if !entitled && cid == id0 {
 		// a refused attempt (wrong user / bad credentials) must not use the connection up
-		vAssert(s.env.M.GetTCPConnection(owner, id0) != nil, "C03.refused_connection_bind_does_not_consume_the_connection")
-		vAssert(true, "C16.refused_connection_bind_does_not_consume_the_connection")
+		got := s.env.M.GetTCPConnection(owner, id0)
+		vAssert(got != nil, "C03.refused_connection_bind_does_not_consume_the_connection")
+		vAssert(got != nil, "C04.refused_connection_bind_from_another_client_changes_nothing")
+		vAssert(s.env.M.GetTCPConnection(owner, id0) == nil, "C16.connection_binds_only_once")
 	}
 	vAssertIf(good, copies == 2, "C16.valid_bind_starts_both_copy_directions")
 	vAssertIf(good, vAnd(peerConn.Closed >= 1, !a.VHasTCPConn(id0)), "C16.after_piping_ends_the_peer_connection_is_closed_and_forgotten")
